@@ -21,7 +21,7 @@ use verif_harness::Warnings;
 use verif_harness::snapgen::{build_typed as build, gen_typed, typed_json, Typed};
 
 /// Is `copy` indistinguishable from what the model says?
-fn indistinguishable(copy: &Snap, m: &Typed, absent: &[(TypeId, u16)]) -> Result<(), (String, String)> {
+fn indistinguishable_reg(copy: &Snap, m: &Typed, absent: &[(TypeId, u16)], maybe_registered: &[Uuid]) -> Result<(), (String, String)> {
     let enumerated: Typed = copy.items().map(|i| ((i.type_id, i.id), i.data.to_vec())).collect();
     let n_enum = copy.items().count();
     if n_enum != enumerated.len() {
@@ -59,10 +59,22 @@ fn indistinguishable(copy: &Snap, m: &Typed, absent: &[(TypeId, u16)]) -> Result
     uu.sort();
     uu.dedup();
     let reg = uu.iter().flat_map(|u| libtw2_snapshot::format::uuid_to_item_data(*u)).fold(0i32, |s, a| s.wrapping_add(a));
-    if copy.crc() != crc.wrapping_add(reg) {
+    // A UUID type whose registry item was accepted while its first item was
+    // refused is registered without having items: any subset of `maybe_registered`
+    // may contribute its registry words.
+    let extra: Vec<i32> = maybe_registered.iter().filter(|u| !uu.contains(u)).map(|u| libtw2_snapshot::format::uuid_to_item_data(*u).iter().fold(0i32, |s, a| s.wrapping_add(*a))).collect();
+    let ok = (0..1u32 << extra.len().min(12)).any(|mask| {
+        let e = extra.iter().enumerate().filter(|(i, _)| mask >> i & 1 == 1).fold(0i32, |s, (_, a)| s.wrapping_add(*a));
+        copy.crc() == crc.wrapping_add(reg).wrapping_add(e)
+    });
+    if !ok {
         return Err(("crc".into(), format!("{} vs {}", copy.crc(), crc.wrapping_add(reg))));
     }
     Ok(())
+}
+
+fn indistinguishable(copy: &Snap, m: &Typed, absent: &[(TypeId, u16)]) -> Result<(), (String, String)> {
+    indistinguishable_reg(copy, m, absent, &[])
 }
 
 fn one(ctx: &mut Ctx, rng: &mut Rng) {
@@ -227,6 +239,136 @@ fn one(ctx: &mut Ctx, rng: &mut Rng) {
     }
 }
 
+/// A builder filled right up to one of its limits, then a burst of further
+/// `add_item` calls around the boundary (new UUID types whose registry item may
+/// or may not fit, the same UUID again with a smaller item, ordinal items that
+/// fit exactly / by one word not). Whatever `add_item` answered `Ok` for, and
+/// nothing else, must be in the finished snapshot, and it must survive the wire.
+fn full_builder(ctx: &mut Ctx, rng: &mut Rng) {
+    let by_count = rng.bool();
+    let mut m = Typed::new();
+    let mut refused = 0u64;
+    let mut accepted_after_refusal = 0u64;
+    let mut absent: Vec<(TypeId, u16)> = Vec::new();
+    let slack_words = rng.usize_below(14);
+    let r = catch(|| -> Result<(), (String, String, String)> {
+        fn st(s: &'static str) -> impl Fn((String, String)) -> (String, String, String) {
+            move |e| (s.to_string(), e.0, e.1)
+        }
+        let mut b = Builder::new();
+        let nuuid0 = rng.usize_below(3);
+        let uu: Vec<Uuid> = (0..nuuid0 + 3).map(|_| { let mut x = [0u8; 16]; rng.fill(&mut x); Uuid::from_bytes(x) }).collect();
+        let mut next_id = 0u16;
+        let add = |b: &mut Builder, m: &mut Typed, t: TypeId, id: u16, len: usize, rng: &mut Rng| -> bool {
+            let d: Vec<i32> = (0..len).map(|_| rng.i32()).collect();
+            match b.add_item(t, id, &d) {
+                Ok(()) => { m.insert((t, id), d); true }
+                Err(_) => false,
+            }
+        };
+        // fill: bytes = 4 * (2 + 2 * items + words)
+        let mut items = 0usize;
+        let mut words = 0usize;
+        for u in &uu[..nuuid0] {
+            if add(&mut b, &mut m, TypeId::Uuid(*u), next_id, 2, rng) { items += 2; words += 6; }
+            next_id += 1;
+        }
+        if by_count {
+            let target = 1024 - rng.usize_below(4);
+            while items < target {
+                if add(&mut b, &mut m, TypeId::Ordinal(1 + rng.below(5) as u16), next_id, rng.usize_below(3), rng) { items += 1; }
+                next_id += 1;
+            }
+        } else {
+            let budget = 65536 / 4 - 2; // words for items: 2 per item + data
+            loop {
+                let used = 2 * items + words;
+                let free = budget - used;
+                if free <= slack_words + 2 {
+                    break;
+                }
+                let len = (free - 2 - slack_words).min(rng.range(200, 2000) as usize);
+                if !add(&mut b, &mut m, TypeId::Ordinal(1 + rng.below(5) as u16), next_id, len, rng) {
+                    return Err(("full-builder".into(), "fitting-item-refused-while-filling".into(), format!("items {} words {} len {}", items, words, len)));
+                }
+                items += 1;
+                words += len;
+                next_id += 1;
+            }
+        }
+        // burst around the boundary
+        let mut seen_refusal = false;
+        for _ in 0..rng.range(4, 12) {
+            let t = match rng.below(3) {
+                0 => TypeId::Ordinal(1 + rng.below(5) as u16),
+                _ => TypeId::Uuid(*rng.pick(&uu)),
+            };
+            let len = rng.usize_below(8);
+            let id = next_id;
+            next_id += 1;
+            if add(&mut b, &mut m, t, id, len, rng) {
+                if seen_refusal {
+                    accepted_after_refusal += 1;
+                }
+            } else {
+                refused += 1;
+                seen_refusal = true;
+                absent.push((t, id));
+            }
+        }
+        let snap = b.finish();
+        indistinguishable_reg(&snap, &m, &absent, &uu).map_err(st("full-builder"))?;
+        let mut buf = Vec::new();
+        let mut bytes: Vec<u8> = Vec::with_capacity(400_000);
+        with_packer(&mut bytes, |p| snap.write(&mut buf, p).map(|_| ())).map_err(|_| ("full-builder".to_string(), "write-capacity".to_string(), String::new()))?;
+        let mut copy = Snap::empty();
+        let mut w = Warnings::new();
+        let mut tmp = Vec::new();
+        copy.read(&mut w, &mut tmp, &bytes).map_err(|e| ("full-builder".to_string(), format!("reread:{:?}", e), String::new()))?;
+        indistinguishable_reg(&copy, &m, &absent, &uu).map_err(st("full-builder-reread"))?;
+        if copy.crc() != snap.crc() {
+            return Err(("full-builder-reread".into(), "crc-changed-on-the-wire".into(), String::new()));
+        }
+        if !w.is_empty() {
+            return Err(("full-builder-reread".into(), "warning".into(), format!("{:?}", w.0)));
+        }
+        // ints form and the delta from empty
+        let mut ints = vec![0i32; 17_000];
+        let n = snap.write_to_ints(&mut buf, &mut ints).map_err(|_| ("full-builder".to_string(), "write-ints-capacity".to_string(), String::new()))?.len();
+        let mut copy2 = Snap::empty();
+        copy2.read_from_ints(&mut w, &ints[..n]).map_err(|e| ("full-builder".to_string(), format!("reread-ints:{:?}", e), String::new()))?;
+        indistinguishable_reg(&copy2, &m, &absent, &uu).map_err(st("full-builder-reread-ints"))?;
+        let mut d = Delta::new();
+        d.create(&Snap::empty(), &snap);
+        let mut copy3 = Snap::empty();
+        copy3.read_with_delta(&mut w, &Snap::empty(), &d).map_err(|e| ("full-builder".to_string(), format!("delta-from-empty:{:?}", e), String::new()))?;
+        indistinguishable_reg(&copy3, &m, &absent, &uu).map_err(st("full-builder-delta-from-empty"))?;
+        // a recycled builder carries on with the same types
+        let mut b2 = snap.recycle();
+        let mut m2 = Typed::new();
+        for (i, u) in uu.iter().enumerate() {
+            let dd = vec![i as i32];
+            if b2.add_item(TypeId::Uuid(*u), i as u16, &dd).is_ok() {
+                m2.insert((TypeId::Uuid(*u), i as u16), dd);
+            }
+        }
+        let s2 = b2.finish();
+        indistinguishable_reg(&s2, &m2, &[], &uu).map_err(st("full-builder-recycled"))?;
+        Ok(())
+    });
+    let class = if by_count { "item-limit" } else { "size-limit" };
+    ctx.count(&format!("full_builders[{}]", class), 1);
+    ctx.count("full_builder_refusals", refused);
+    ctx.count("full_builder_accepts_after_refusal", accepted_after_refusal);
+    let case = json!({"full_builder": class, "slack_words": slack_words, "items": m.len()});
+    match r {
+        Err(p) => ctx.panic_violation("Snap round trip", &format!("full-builder|{}", class), &p, case),
+        Ok(Err((stage, what, detail))) => ctx.violation("indistinguishable", &stage, &format!("{}|{}", what, class), json!({"detail": detail}), case),
+        Ok(Ok(())) => {}
+    }
+    ctx.case(Some(rng.u64()));
+}
+
 fn main() {
     let mut ctx = Ctx::from_args("C10");
     ctx.rule = "builder-made snapshots with 0..1024 items, 0..40 UUID types interleaved with ordinal ones, ids over 0..65535, item lengths 0..2000 words up to the 64 KiB limit; each is written to bytes and ints and read back, rebuilt from deltas (from empty and from a predecessor through a recycled builder), and the wire copy is recycled; non-trivial = at least one item; distinct = hash of the item map".into();
@@ -234,6 +376,8 @@ fn main() {
     ctx.arm("c10", 1800.0);
     let n = ctx.volume(2_500, 60_000, 3, 100);
     ctx.run_cases("roundtrip", n, |ctx, _i, rng| one(ctx, rng));
+    let n = ctx.volume(300, 6_000, 1, 20);
+    ctx.run_cases("full-builder", n, |ctx, _i, rng| full_builder(ctx, rng));
     ctx.disarm();
     ctx.finish();
 }
